@@ -72,3 +72,17 @@ def run(ctx):
     from checks import c07
     t3 = c07.pipeline_traces(ctx, free=0, big=0, cancel=0, procs=2 if ctx.tier == "quick" else 6, label="c20e")
     n5, _ = vf.validate_runs(ctx, "PacketScanObsTrace", t3, keyfn=lambda run, evt: "C20:engine:%s:%s" % (evt.get("ev"), evt.get("what", "")), label="receive burst in the engine", timeout=1500)
+    # the real AF_PACKET source on a veth pair under the real receiver (private network namespace): frames sent before the filter was
+    # attached are not processed, poll timeouts are silent, Close returns within the poll timeout also under traffic, and the receiver ends
+    # after Close whether or not its context was cancelled (design: SourceLifetime.tla; finding F17)
+    if wt.available():
+        b2 = ctx.go_build_test("./pkg/packet/afpacket")
+        so = os.path.join(ctx.scratch, "c20-source.ndjson")
+        rc, o = ctx.go_run_test(b2, "^TestVfSource$", {"VF_OUT": so, "VF_REPS": 2 if ctx.tier == "quick" else 12}, 900, True)
+        ev = vf.read_ndjson(so) if os.path.exists(so) else []
+        ev += vf.crash_events(ctx, rc, o, "source")
+        so2 = os.path.join(ctx.scratch, "c20-source-all.ndjson")
+        vf.write_ndjson(so2, ev)
+        vf.validate_runs(ctx, "SourceTrace", so2, keyfn=lambda run, evt: "C20:source:%s:%s" % (evt.get("ev"), evt.get("what", evt.get("text", ""))[:60]), label="real AF_PACKET source")
+    else:
+        ctx.notes.append("real AF_PACKET source step skipped: unshare -n is not permitted here")
